@@ -121,6 +121,10 @@ type replica struct {
 	stores []*storage.MemCachedStore
 	daos   []*dao.Simple
 	dir    string
+	// dead is set once the backend's content was found to differ from the
+	// model right after a write: the divergence is reported once, under its own
+	// signature, and the replica takes no further part in the case.
+	dead bool
 }
 
 func openBase(kind, dir string) (storage.Store, error) {
@@ -138,9 +142,6 @@ func newReplica(kind string, sh shape, dir string) (*replica, error) {
 	base, err := openBase(kind, dir)
 	if err != nil {
 		return nil, err
-	}
-	if debugWrap != nil {
-		base = debugWrap(kind, base)
 	}
 	rp := &replica{kind: kind, sh: sh, base: base, dir: dir}
 	if sh.viaDAO {
@@ -465,6 +466,7 @@ type seqCase struct {
 	merged  bool
 	hidden  bool
 	nval    int
+	cover   []byte // one-byte prefixes covering the key universe (nil: derive from heads)
 }
 
 func (c *seqCase) key() []byte {
@@ -480,18 +482,95 @@ func (c *seqCase) val() []byte {
 	return []byte(fmt.Sprintf("v%d", c.nval))
 }
 
-var debugHook func(c *seqCase, sig, detail string)
-
 func (c *seqCase) violation(sig, detail string, extra map[string]any) {
 	c.nvio++
-	if debugHook != nil {
-		debugHook(c, sig, detail)
-	}
 	w := map[string]any{"shape": c.sh.String(), "ops": append([]string(nil), c.log...), "detail": detail}
 	for k, v := range extra {
 		w[k] = v
 	}
 	c.run.Violation(sig, c.id, detail, w)
+}
+
+func (c *seqCase) live() []*replica {
+	var out []*replica
+	for _, rp := range c.reps {
+		if !rp.dead {
+			out = append(out, rp)
+		}
+	}
+	return out
+}
+
+// firstBytes are the one-byte prefixes that cover the case's key universe.
+func (c *seqCase) firstBytes() []byte {
+	if c.cover != nil {
+		return c.cover
+	}
+	a, b := heads[c.sh.h[0]][0], heads[c.sh.h[1]][0]
+	if a == b {
+		return []byte{a}
+	}
+	return []byte{min(a, b), max(a, b)}
+}
+
+func (c *seqCase) dumpBase(rp *replica) []string {
+	var out []string
+	for _, b := range c.firstBytes() {
+		rp.base.Seek(storage.SeekRange{Prefix: []byte{b}}, func(k, v []byte) bool {
+			out = append(out, hex.EncodeToString(k)+"="+string(v))
+			return true
+		})
+	}
+	return out
+}
+
+// dumpBases returns the content of every live backend (only when the coming
+// operation writes to the backends).
+func (c *seqCase) dumpBases(writesBase bool) [][]string {
+	if !writesBase {
+		return nil
+	}
+	out := make([][]string, len(c.reps))
+	for i, rp := range c.reps {
+		if !rp.dead {
+			out[i] = c.dumpBase(rp)
+		}
+	}
+	return out
+}
+
+// audit compares every backend's content with the model right after an
+// operation that wrote to the backends. A backend that differs is reported once
+// and dropped from the case, so that one lost write does not show up again as
+// dozens of differently shaped wrong answers.
+func (c *seqCase) audit(wroteBase bool, op string, pre [][]string) {
+	if !wroteBase {
+		return
+	}
+	var want []string
+	for _, b := range c.firstBytes() {
+		for _, kv := range refmap.Seek(c.m.Base, refmap.Range{Prefix: []byte{b}}, true) {
+			want = append(want, hex.EncodeToString([]byte(kv.K))+"="+string(kv.V))
+		}
+	}
+	for i, rp := range c.reps {
+		if rp.dead {
+			continue
+		}
+		c.run.Obs("backend_content_audits_after_write", 1)
+		got := c.dumpBase(rp)
+		if eqStrs(got, want) {
+			continue
+		}
+		rp.dead = true
+		c.run.Obs("replicas_dropped_after_backend_divergence", 1)
+		sig := "backend-content-differs-from-ordered-map-after-" + op + ":" + rp.kind
+		if eqStrs(got, pre[i]) {
+			sig = "acknowledged-write-not-visible-in-backend:" + rp.kind
+		}
+		c.violation(sig, fmt.Sprintf("after %q the %s backend holds %v, the model %v (before the operation the backend held %v)", c.log[len(c.log)-1], rp.kind, got, want, pre[i]),
+			map[string]any{"backend": rp.kind, "content": got, "model": want, "content_before": pre[i]})
+	}
 }
 
 func kindsOf(fails map[string]string) string {
@@ -631,12 +710,7 @@ func (c *seqCase) observeMerge(q *query, want []refmap.KV) {
 
 // ask runs q on every replica, compares each answer with the model and the
 // answers with each other; it returns the canonical answers per replica.
-var debugSkip func(q *query) bool
-
 func (c *seqCase) ask(q *query) [][]string {
-	if debugSkip != nil && debugSkip(q) {
-		return make([][]string, len(c.reps))
-	}
 	view := c.m.View(q.target, q.rng.SearchDepth)
 	answers := make([][]string, len(c.reps))
 	fails := map[string]string{}
@@ -645,7 +719,7 @@ func (c *seqCase) ask(q *query) [][]string {
 	shown := map[string]any{}
 	asked := 0
 	for i, rp := range c.reps {
-		if q.diskOnly && rp.kind == "mem" {
+		if rp.dead || (q.diskOnly && rp.kind == "mem") {
 			continue
 		}
 		asked++
@@ -653,7 +727,7 @@ func (c *seqCase) ask(q *query) [][]string {
 		if broken != "" {
 			c.violation("api-result-malformed:"+apiNames[q.api], broken, map[string]any{"query": q.String(), "backend": rp.kind})
 		}
-		answers[i] = canon(got, q.cmp)
+		answers[i] = append([]string{}, canon(got, q.cmp)...)
 		shown[rp.kind] = answers[i]
 		var sig string
 		var known bool
@@ -668,6 +742,9 @@ func (c *seqCase) ask(q *query) [][]string {
 			continue
 		}
 		fails[rp.kind] = sig
+	}
+	if want == nil {
+		want = refmap.Seek(view, q.rng, true)
 	}
 	c.run.Obs("seek_answers_compared_with_model", int64(asked))
 	if q.diskOnly {
@@ -702,7 +779,7 @@ func (c *seqCase) ask(q *query) [][]string {
 		c.violation(first+":"+kindsOf(fails), fmt.Sprintf("%s: model=%v mem=%v bolt=%v leveldb=%v", q, shown["model"], shown["mem"], shown["bolt"], shown["leveldb"]), shown)
 	} else if knownSig == "" {
 		for i := 1; i < len(answers); i++ {
-			if q.diskOnly && (c.reps[i].kind == "mem" || c.reps[i-1].kind == "mem") {
+			if answers[i] == nil || answers[i-1] == nil {
 				continue
 			}
 			if !eqStrs(answers[i-1], answers[i]) { // cannot happen when all agree with the model; kept as an independent oracle
@@ -714,13 +791,7 @@ func (c *seqCase) ask(q *query) [][]string {
 }
 
 // gets compares point reads of the whole key universe on one target.
-var debugNoGets bool
-var debugWrap func(kind string, s storage.Store) storage.Store
-
 func (c *seqCase) gets(target int) {
-	if debugNoGets {
-		return
-	}
 	view := c.m.View(target, 0)
 	for _, hi := range c.sh.h {
 		for _, sfx := range suffixes {
@@ -729,6 +800,9 @@ func (c *seqCase) gets(target int) {
 			fails := map[string]string{}
 			shown := map[string]any{"key": hex.EncodeToString(k), "model": fmt.Sprintf("%q live=%v", want, live), "target": target}
 			for _, rp := range c.reps {
+				if rp.dead {
+					continue
+				}
 				v, err := rp.store(target).Get(k)
 				shown[rp.kind] = fmt.Sprintf("%q err=%v", v, err)
 				switch {
@@ -802,7 +876,11 @@ func (c *seqCase) seekGC(li int) {
 	fails := map[string]string{}
 	knownSig := ""
 	shown := map[string]any{"model": canon(want, cmpBoth), "op": c.log[len(c.log)-1]}
+	pre := c.dumpBases(li < 0)
 	for _, rp := range c.reps {
+		if rp.dead {
+			continue
+		}
 		var got []refmap.KV
 		err := rp.store(li).SeekGC(toSR(rg), func(k, v []byte) (bool, bool) {
 			got = append(got, refmap.KV{K: string(k), V: bytes.Clone(v)})
@@ -827,6 +905,7 @@ func (c *seqCase) seekGC(li int) {
 			c.run.Obs("seekgc_pairs_dropped", 1)
 		}
 	}
+	c.audit(li < 0, "seekgc", pre)
 	c.run.Obs("seekgc_runs", 1)
 	c.run.Obs("seekgc_pairs_visited", int64(len(want)))
 	if knownSig != "" {
@@ -881,7 +960,11 @@ func (c *seqCase) persist(li int, mode string) {
 	n := len(c.m.Layers[li])
 	c.log = append(c.log, fmt.Sprintf("%s L%d (%d entries)", mode, li, n))
 	c.kinds = append(c.kinds, mode)
+	pre := c.dumpBases(li == 0)
 	for _, rp := range c.reps {
+		if rp.dead {
+			continue
+		}
 		var err error
 		var cnt int
 		switch mode {
@@ -903,14 +986,18 @@ func (c *seqCase) persist(li int, mode string) {
 		}
 	}
 	c.m.Flush(li)
+	c.audit(li == 0, "persist", pre)
 	if n > 0 {
 		c.flushed = true
 		c.run.Obs("flushes_of_nonempty_layers", 1)
 	}
 	for i, q := range qs {
 		after := c.ask(q)
-		c.run.Obs("flush_invariance_pairs", int64(len(c.reps)))
 		for j := range after {
+			if before[i][j] == nil || after[j] == nil {
+				continue
+			}
+			c.run.Obs("flush_invariance_pairs", 1)
 			if eqStrs(before[i][j], after[j]) {
 				continue
 			}
@@ -950,7 +1037,7 @@ func (c *seqCase) step(opIdx int) {
 		k, v := c.key(), c.val()
 		c.log = append(c.log, fmt.Sprintf("Put L%d %x=%q", li, k, v))
 		c.kinds = append(c.kinds, "put")
-		for _, rp := range c.reps {
+		for _, rp := range c.live() {
 			rp.stores[li].Put(k, v)
 		}
 		c.m.Put(li, string(k), v)
@@ -958,7 +1045,7 @@ func (c *seqCase) step(opIdx int) {
 		k := c.key()
 		c.log = append(c.log, fmt.Sprintf("Delete L%d %x", li, k))
 		c.kinds = append(c.kinds, "del")
-		for _, rp := range c.reps {
+		for _, rp := range c.live() {
 			rp.stores[li].Delete(k)
 		}
 		c.m.Put(li, string(k), nil)
@@ -981,7 +1068,8 @@ func (c *seqCase) step(opIdx int) {
 		}
 		c.log = append(c.log, fmt.Sprintf("PutChangeSet L%d%s (nil value = deletion)", li, desc))
 		c.kinds = append(c.kinds, "batch")
-		for _, rp := range c.reps {
+		pre := c.dumpBases(li < 0)
+		for _, rp := range c.live() {
 			cp := func(m map[string][]byte) map[string][]byte {
 				o := map[string][]byte{}
 				for k, v := range m {
@@ -996,6 +1084,7 @@ func (c *seqCase) step(opIdx int) {
 		for _, kv := range kvs {
 			c.m.Put(li, kv.K, kv.V)
 		}
+		c.audit(li < 0, "putchangeset", pre)
 	case x < 18:
 		pl := r.Intn(c.sh.depth)
 		mode := "Persist"
@@ -1011,13 +1100,8 @@ func (c *seqCase) step(opIdx int) {
 		c.seekGC(r.Intn(c.sh.depth+1) - 1)
 	}
 	c.run.Obs("operations", 1)
-	if debugStep != nil {
-		debugStep(c)
-	}
 	c.battery(ev.Pick(8, 10))
 }
-
-var debugStep func(c *seqCase)
 
 func runSeqCase(run *ev.Run, idx int, tmp string) {
 	id := fmt.Sprint("seq", idx)
